@@ -48,6 +48,20 @@ def _classes(shift):
             x = self.io.data["x"]
             self.jac = {"f": {"x": np.array([[2 * (x[0] - a), 2 * (x[1] - b)]])}, "g": {"x": np.array([[1.0, 1.0]])}}
 
+    class DV(Discipline):
+        """Vector-valued objective y (size 2) and scalar constraint c: in the HDF file y is an array and c a scalar."""
+
+        def __init__(self):
+            super().__init__(name="DV")
+            self.input_grammar.update_from_names(["x"])
+            self.output_grammar.update_from_names(["y", "c"])
+            self.default_input_data = {"x": np.array([0.0, 0.0])}
+
+        def _run(self, input_data):
+            x = input_data["x"]
+            _tick(x)
+            return {"y": np.array([x[0] + 2 * x[1] + a, x[0] * x[1] - b]), "c": np.array([x[0] ** 2 - x[1] - 1.5])}
+
     class D1(Discipline):
         def __init__(self):
             super().__init__(name="D1")
@@ -88,7 +102,7 @@ def _classes(shift):
                 "g": {"x": np.array([[1.0, 1.05]]), "y1": np.array([[-0.02]])},
             }
 
-    return D, D1, D2
+    return D, D1, D2, DV
 
 
 CUSTOM_SAMPLES = [[0.0, 0.0], [1.0, 2.0], [-2.0, 3.0], [1.0, 1.0], [4.0, -3.0], [0.5, 1.5]]
@@ -97,16 +111,20 @@ CUSTOM_SAMPLES = [[0.0, 0.0], [1.0, 2.0], [-2.0, 3.0], [1.0, 1.0], [4.0, -3.0], 
 def build(cfg, path, load):
     from gemseo import create_design_space, create_scenario
 
-    D, D1, D2 = _classes(cfg["shift"])
+    D, D1, D2, DV = _classes(cfg["shift"])
     ds = create_design_space()
     ds.add_variable("x", 2, lower_bound=-5.0, upper_bound=5.0, value=np.array([0.0, 0.0]))
     kind = "DOE" if cfg["scen"].startswith("DOE") else "MDO"
     if "MDF" in cfg["scen"]:
         s = create_scenario([D1(), D2()], "f", ds, formulation_name="MDF", scenario_type=kind, main_mda_name="MDAGaussSeidel",
                             main_mda_settings={"tolerance": 1e-12, "max_mda_iter": 30})
+    elif "Vec" in cfg["scen"]:
+        s = create_scenario([DV()], "y", ds, formulation_name="DisciplinaryOpt", scenario_type=kind)
+        s.add_constraint("c", constraint_type="ineq")
     else:
         s = create_scenario([D()], "f", ds, formulation_name="DisciplinaryOpt", scenario_type=kind)
-    s.add_constraint("g", constraint_type="ineq")
+    if "Vec" not in cfg["scen"]:
+        s.add_constraint("g", constraint_type="ineq")
     s.set_optimization_history_backup(path, load=load, at_each_iteration=cfg["mode"] == "iteration", at_each_function_call=cfg["mode"] == "call")
     return s
 
@@ -197,7 +215,7 @@ def _names_at(sn, x):
 def _best_feasible(sn, tol=1e-6):
     best = None
     for p, vals in sn or []:
-        if "f" in vals and "g" in vals and vals["g"][0] <= tol:
+        if "f" in vals and len(vals["f"]) == 1 and "g" in vals and vals["g"][0] <= tol:
             if best is None or vals["f"][0] < best:
                 best = vals["f"][0]
     return best
@@ -353,6 +371,7 @@ def configs(ctx):
         ("DOE-DOpt", "PYDOE_FULLFACT", 0, True),
         ("DOE-DOpt", "CustomDOE", 0, True),
         ("DOE-MDF", "CustomDOE", 0, True),
+        ("DOE-Vec", "CustomDOE", 0, True),  # array-valued objective + scalar constraint (mixed storage kinds in the file)
     ]
     for name, algo, mi, det in scen:
         for mode in ("call", "iteration"):
